@@ -52,8 +52,11 @@ def main():
                     if '/' not in fn and ' ' not in fn:
                         by_file.setdefault(rel, set()).add(fn)
     plans, sources = [], {}
+    skip = [x for x in os.environ.get('EXCLUDE', '').split(',') if x]
     for rel, names in sorted(by_file.items()):
         path = os.path.join(ROOT, rel)
+        if any(x in rel for x in skip):
+            continue
         if os.path.isfile(path):
             sources[rel] = open(path).read()
             plans += [(rel, it) for it in mutate.plan(sources[rel], names) if it[1] not in ('uncopy', 'aliasparam')]
@@ -64,7 +67,8 @@ def main():
     det = [r for r in res if r['violation'] or r['analysis_error']]
     out = {'mutation_points': total, 'mutants_run': len(res), 'seed': seed, 'detected_by_some_check': len(det), 'ratio': round(len(det) / max(1, len(res)), 3),
            'violation_only_ratio': round(sum(1 for r in res if r['violation']) / max(1, len(res)), 3), 'survivors': [r for r in res if not (r['violation'] or r['analysis_error'])], 'detected': det}
-    json.dump(out, open(os.path.join(V, 'global_mutants.json'), 'w'), indent=1)
+    out['excluded'] = skip
+    json.dump(out, open(os.environ.get('OUT', os.path.join(V, 'global_mutants.json')), 'w'), indent=1)
     print({k: v for k, v in out.items() if k not in ('survivors', 'detected')})
 
 
